@@ -40,6 +40,7 @@ type rootsCase struct {
 	NaSkewS   int64  `json:"not_after_skew_s"`
 	Reinit    bool   `json:"reinitialize"`
 	Wrap      bool   `json:"storage_wrapper"`
+	WrapKind  string `json:"storage_wrapper_kind,omitempty"` // with storage_wrapper: "" one aead key | nokeyid | pooled | envelope
 	Backend   string `json:"backend"`
 	// walk
 	Steps int   `json:"steps,omitempty"`
@@ -541,12 +542,15 @@ func runRootsCase(c *engine.Ctx, rc rootsCase) {
 		runRootsUnreadable(c, rc)
 		return
 	}
-	s, err := world.NewServer(world.ServerCfg{Backend: rc.Backend, StorageWrap: rc.Wrap, NoRoots: true})
+	s, err := world.NewServer(world.ServerCfg{Backend: rc.Backend, StorageWrap: rc.Wrap, StorageWrapKind: rc.WrapKind, NoRoots: true})
 	if err != nil {
 		r.Broken(err.Error())
 		return
 	}
 	defer s.Close()
+	if rc.Wrap {
+		r.Count("storage_wrapper_kind:"+orDefault(rc.WrapKind, "aead"), 1)
+	}
 	k := &rootsChecker{c: c, rc: rc, s: s}
 	desc := engine.J(rc)
 	switch rc.Kind {
@@ -833,6 +837,15 @@ func runRoots(c *engine.Ctx) engine.Result {
 	r.Set("configurations", len(cfgs))
 	r.Sample(cases[7])
 	r.Sample(cases[len(cases)-1])
+	// kinds of storage wrapper for the cases that run under one: a single aead key, an aead key without key
+	// ID, a pool of keys, envelope encryption
+	nw := 0
+	for i := range cases {
+		if cases[i].Wrap && cases[i].Kind != "reinit-fault" && cases[i].Kind != "unreadable" {
+			cases[i].WrapKind = []string{"", world.WrapNoKeyID, world.WrapPooled, world.WrapEnvelope}[nw%4]
+			nw++
+		}
+	}
 	sort.SliceStable(cases, func(i, j int) bool { return cases[i].Backend < cases[j].Backend })
 	engine.ForEach(len(cases), engine.Workers(), func(i int) { runRootsCase(c, cases[i]) })
 	for _, a := range []string{"nochange", "promote", "remint-next", "startover"} {
